@@ -599,12 +599,30 @@ const (
 	c44SigRenameRPF = "rename-leaves-rpf-skip-rule-on-old-name"
 	// ARP-suppression chain (nftables, IPv4) of the old name is not removed on rename.
 	c44SigRenameARP = "rename-leaves-arp-chain-on-old-name"
+	// The holder of a name is removed in the same batch in which an endpoint shadowed on that
+	// name is also updated or removed: promoting the shadowed endpoint overwrites its pending
+	// update/removal with the stale shadow record (depends on Go map iteration order).
+	c44SigPromotionOverwrites = "promotion-overwrites-pending-message-of-shadowed"
 )
 
 // c44BatchSigs returns the known-finding signatures that the batch (resolved -> current)
 // contains.  ARP: whether the rig has an ARP table.
-func (w *c44World) batchSigs(resolved, current map[int]*c44EP, arp bool) map[string]bool {
+func (w *c44World) batchSigs(resolved, current map[int]*c44EP, touched map[int]bool, arp bool) map[string]bool {
 	out := map[string]bool{}
+	// Promotion: the preferred claimant of a name (at the previous resolve) ends the batch
+	// removed, and another claimant of that name (at the previous resolve) has a message in
+	// the same batch.
+	for name, ids := range w.claimants(resolved) {
+		if len(ids) < 2 || current[ids[0]] != nil {
+			continue
+		}
+		for _, j := range ids[1:] {
+			if touched[j] {
+				out[c44SigPromotionOverwrites] = true
+			}
+		}
+		_ = name
+	}
 	claims := func(name string, except int) (ids []int) {
 		seen := map[int]bool{}
 		for _, m := range []map[int]*c44EP{resolved, current} {
@@ -707,6 +725,30 @@ func TestVerifC44PreferredEndpoint(t *testing.T) {
 		resolved := map[int]*c44EP{}
 		ifaceUp := map[string]bool{}
 
+		touched := map[int]bool{} // endpoints with a message in the current batch
+		// excluded: would the batch, with endpoint idx's message added, contain a listed known
+		// finding?  (HARNESS_GUIDE rule 4: steer around exactly those signatures.)
+		excluded := func(trial map[int]*c44EP, idx int) bool {
+			tt := map[int]bool{idx: true}
+			for i := range touched {
+				tt[i] = true
+			}
+			skip := false
+			sigs := w.batchSigs(resolved, trial, tt, cfg.ARP)
+			var names []string
+			for sig := range sigs {
+				names = append(names, sig)
+			}
+			sort.Strings(names)
+			for _, sig := range names {
+				if ev.Known(sig) {
+					rec.Excluded(sig)
+					skip = true
+				}
+			}
+			return skip
+		}
+
 		var shape []string
 		classes := map[string]bool{}
 		nontrivial := false
@@ -744,6 +786,10 @@ func TestVerifC44PreferredEndpoint(t *testing.T) {
 			for name, ids := range oldCl {
 				if n := newCl[name]; len(ids) > 1 && len(n) > 0 && n[0] != ids[0] && w.live[ids[0]] == nil {
 					classes["promotion-after-remove"] = true
+					nontrivial = true
+					if len(ids) > 2 && len(n) > 1 {
+						classes["promotion-best-of-two-shadowed"] = true
+					}
 				}
 				if n := newCl[name]; len(n) > 1 && len(ids) > 0 && n[0] != ids[0] && w.live[ids[0]] != nil && w.live[ids[0]].Name == name {
 					classes["takeover-by-more-preferred"] = true
@@ -763,15 +809,29 @@ func TestVerifC44PreferredEndpoint(t *testing.T) {
 					cfg, w.describe(w.live), w.describe(resolved), sb.String())
 			}
 			resolved = c44CopyLive(w.live)
+			touched = map[int]bool{}
 		}
 
-		nOps := rapid.IntRange(1, ev.Scale(14, 24)).Draw(t, "nOps")
+		holder := -1
+		nOps := rapid.IntRange(1, ev.Scale(16, 28)).Draw(t, "nOps")
 		for op := 0; op < nOps; op++ {
-			kind := rapid.SampledFrom([]string{"update", "update", "update", "update", "remove", "remove", "iface", "resolve", "resolve", "resolve"}).Draw(t, "op")
+			kind := rapid.SampledFrom([]string{"update", "update", "update", "update", "update", "remove", "removeHolder", "removeHolder", "iface", "resolve", "resolve", "resolve", "resolve"}).Draw(t, "op")
+			if kind == "removeHolder" {
+				// Remove the preferred claimant of a contended name (forces a promotion).
+				kind = "remove"
+				cl := w.claimants(w.live)
+				for _, n := range names {
+					if len(cl[n]) > 1 {
+						holder = cl[n][0]
+						break
+					}
+				}
+			}
 			switch kind {
 			case "update":
 				idx := rapid.IntRange(0, 2).Draw(t, "ep")
-				name := rapid.SampledFrom(names).Draw(t, "name")
+				// The first name is drawn more often so that three claimants of one name are common.
+				name := names[[]int{0, 0, 0, 1, 1, 2}[rapid.IntRange(0, 2*len(names)-1).Draw(t, "name")]%len(names)]
 				if old := w.live[idx]; old != nil && rapid.IntRange(0, 2).Draw(t, "keepName") > 0 {
 					name = old.Name
 				}
@@ -781,17 +841,11 @@ func TestVerifC44PreferredEndpoint(t *testing.T) {
 				// Known findings: keep the generated batch free of listed signatures.
 				trial := c44CopyLive(w.live)
 				trial[idx] = e
-				skip := false
-				for sig := range w.batchSigs(resolved, trial, cfg.ARP) {
-					if ev.Known(sig) {
-						rec.Excluded(sig)
-						skip = true
-					}
-				}
-				if skip {
+				if excluded(trial, idx) {
 					shape = append(shape, "x")
 					continue
 				}
+				touched[idx] = true
 				w.live[idx] = e
 				c44SendUpdate(rig, w.ids[idx], idx, e)
 				batch++
@@ -806,7 +860,18 @@ func TestVerifC44PreferredEndpoint(t *testing.T) {
 					continue
 				}
 				sort.Ints(liveIdx)
-				idx := rapid.SampledFrom(liveIdx).Draw(t, "removeEp")
+				idx := holder
+				holder = -1
+				if idx < 0 {
+					idx = rapid.SampledFrom(liveIdx).Draw(t, "removeEp")
+				}
+				trial := c44CopyLive(w.live)
+				delete(trial, idx)
+				if excluded(trial, idx) {
+					shape = append(shape, "x")
+					continue
+				}
+				touched[idx] = true
 				delete(w.live, idx)
 				rig.mgr.OnUpdate(&proto.WorkloadEndpointRemove{Id: c44ProtoID(w.ids[idx])})
 				batch++
@@ -903,6 +968,7 @@ type c44Step struct {
 	name   string // "" = remove
 	spoof  bool
 	active bool
+	more   bool // the next step belongs to the same batch (no resolve in between)
 }
 
 func c44RunScript(t *testing.T, sig string, cfg c44Cfg, steps []c44Step) {
@@ -916,6 +982,21 @@ func c44RunScript(t *testing.T, sig string, cfg c44Cfg, steps []c44Step) {
 		{OrchestratorId: "k8s", WorkloadId: "ns/pod-c", EndpointId: "eth0"},
 	}, live: map[int]*c44EP{}}
 	renderer := rules.NewRenderer(c44RulesConfig(cfg), cfg.NFT)
+	// Scripts with a multi-message batch depend on Go's map iteration order inside the manager;
+	// they are repeated so that every order is seen (miss probability 2^-64 for 2 messages).
+	trials := 1
+	for _, s := range steps {
+		if s.more {
+			trials = 64
+		}
+	}
+	for trial := 0; trial < trials; trial++ {
+		c44RunScriptOnce(t, sig, cfg, renderer, w, steps)
+	}
+}
+
+func c44RunScriptOnce(t *testing.T, sig string, cfg c44Cfg, renderer rules.RuleRenderer, w *c44World, steps []c44Step) {
+	w.live = map[int]*c44EP{}
 	rig := c44NewRig(cfg, renderer)
 	for n, s := range steps {
 		if s.name == "" {
@@ -926,6 +1007,9 @@ func c44RunScript(t *testing.T, sig string, cfg c44Cfg, steps []c44Step) {
 			w.live[s.idx] = e
 			c44SendUpdate(rig, w.ids[s.idx], s.idx, e)
 		}
+		if s.more {
+			continue
+		}
 		if err := rig.resolve(); err != nil {
 			t.Fatal(err)
 		}
@@ -934,7 +1018,7 @@ func c44RunScript(t *testing.T, sig string, cfg c44Cfg, steps []c44Step) {
 			for _, v := range vs {
 				fmt.Fprintf(&sb, "\n [%s] %s", v.kind, v.msg)
 			}
-			t.Fatalf("known finding %q reproduced after step %d of %+v (one message per resolve)\n live endpoints:%s\n violations:%s",
+			t.Fatalf("known finding %q reproduced after step %d of %+v \n live endpoints:%s\n violations:%s",
 				sig, n+1, steps, w.describe(w.live), sb.String())
 		}
 	}
@@ -971,4 +1055,11 @@ func TestVerifC44KnownRenameLeavesRPFSkip(t *testing.T) {
 func TestVerifC44KnownRenameLeavesARPChain(t *testing.T) {
 	c44RunScript(t, c44SigRenameARP, c44Cfg{IPVersion: 4, NFT: true, ARP: true}, []c44Step{
 		{idx: 0, name: c44X, active: true}, {idx: 0, name: c44Y, active: true}})
+}
+
+// ep0 holds X and shadows ep1; both are removed in one batch: nothing may remain on X.
+func TestVerifC44KnownPromotionOverwritesPending(t *testing.T) {
+	c44RunScript(t, c44SigPromotionOverwrites, c44Cfg{IPVersion: 4}, []c44Step{
+		{idx: 0, name: c44X, active: true}, {idx: 1, name: c44X, active: true},
+		{idx: 0, name: "", more: true}, {idx: 1, name: ""}})
 }
